@@ -226,7 +226,11 @@ def audit(ctx, prop_files, log):
         if blk.startswith('Closed under the global context'):
             closed += 1
         elif blk.startswith('Axioms:'):
-            for m in re.finditer(r'^([A-Za-z_][\w\.]*)\s*(?::|$)', blk[len('Axioms:'):], re.M):
+            body = blk[len('Axioms:'):]
+            cut = re.search(r'^(File "|make|Error|COQC|COQDEP|In environment|\*\*\*)', body, re.M)
+            if cut:
+                body = body[:cut.start()]
+            for m in re.finditer(r'^([A-Za-z_][\w\.]*)\s*(?::|$)', body, re.M):
                 axioms.add(m.group(1))
     ctx.axioms = axioms
     for a in sorted(axioms):
